@@ -1,16 +1,20 @@
 """Shared value-space explorer for C03 (cleared conversions exact + UB-free) and C04 (checkers exact).
 
-Instances (T, N, D): source unit Meters, target unit Meters*D/N, so unit_ratio(source,target)=N/D.
-Everything about the expected behaviour is computed by harness/sweep.hh::exact_scale (unsigned
-128-bit arithmetic, no Au code) and by Python big integers for the window alphabet.
+Instances (T, N, D, source unit, target unit slot): unit_ratio(source, target) = N/D.  The bulk uses
+source Meters and the anonymous target Meters*D/N; a fixed list of shaped instances (QuantityMaker /
+symbol slots, prefixed, compound and powered library units, identity and equivalent-unit targets)
+uses the same oracle.  Everything about the expected behaviour is computed by
+harness/sweep.hh::exact_scale (unsigned 128-bit arithmetic, no Au code) and by Python big integers
+for the window alphabet, the threshold model and the constant-expression probes.
 """
 import json
 import math
 import os
+from collections import namedtuple
 from math import gcd, isqrt
 
 from . import core
-from .core import BITS, I8, is_signed, promoted, tmax, tmin
+from .core import I8
 
 CONSTEXPR_FLAGS_G = ["-fconstexpr-ops-limit=4000000000", "-fconstexpr-loop-limit=100000000",
                      "-fconstexpr-depth=2048", "-ftemplate-depth=2048"]
@@ -24,6 +28,35 @@ SAN = ["-fsanitize=undefined,unsigned-integer-overflow,implicit-conversion", "-f
 
 def cflags(cfg):
     return CONSTEXPR_FLAGS_C if cfg.is_clang else CONSTEXPR_FLAGS_G
+
+
+# ---- integral reps: the eight fixed-width aliases plus the distinct integral types of LP64 --------
+# (name -> (bits, signed)).  `long long`/`unsigned long long` are distinct from int64_t/uint64_t
+# (= long/unsigned long); `char` is a distinct signed 8-bit type; wchar_t/char16_t/char32_t are
+# distinct 32/16/32-bit types.  bool is left out: every factor other than 1 is outside its domain.
+ALIAS_REPS = {"long long": (64, True), "unsigned long long": (64, False), "char": (8, True),
+              "wchar_t": (32, True), "char16_t": (16, False), "char32_t": (32, False)}
+BITS = dict(core.BITS)
+BITS.update({k: v[0] for k, v in ALIAS_REPS.items()})
+
+
+def is_signed(t):
+    return ALIAS_REPS[t][1] if t in ALIAS_REPS else core.is_signed(t)
+
+
+def tmin(t):
+    return -(1 << (BITS[t] - 1)) if is_signed(t) else 0
+
+
+def tmax(t):
+    return (1 << (BITS[t] - 1)) - 1 if is_signed(t) else (1 << BITS[t]) - 1
+
+
+def plim(t):
+    """(min, max) of the promoted type of t (independent table: sub-int types promote to int)."""
+    if BITS[t] < 32:
+        return -(1 << 31), (1 << 31) - 1
+    return tmin(t), tmax(t)
 
 
 LIB_RATIOS = [(1250, 381), (5000, 127), (201168, 125), (1852, 1), (3600, 1), (86400, 1),
@@ -50,12 +83,89 @@ def predicted_domain(t, n, d):
         return n <= tmax(t)
     if n == 1:
         return d <= tmax(t)
-    pm = tmax(promoted(t))
+    pm = plim(t)[1]
     return n <= pm and d <= pm
 
 
+def branch_boundaries(t):
+    """Denominators at which Max/MinNonOverflowingValue switch between `t_lim * den` and `p_lim`
+    (den > p_max / t_max resp. den > p_min / t_min), with both neighbours."""
+    tm, (pmn, pm) = tmax(t), plim(t)
+    b = {pm // tm, pm // tm + 1, (pm + 1) // (tm + 1), (pm + 1) // (tm + 1) + 1, (pm + 1) // (tm + 1) - 1}
+    if is_signed(t):
+        q = (-pmn) // (-tmin(t))
+        b |= {q - 1, q, q + 1}
+    return sorted(x for x in b if x >= 3)
+
+
+def _is_prime(n):
+    if n < 2:
+        return False
+    i = 2
+    while i * i <= n:
+        if n % i == 0:
+            return False
+        i += 1
+    return True
+
+
+def smooth_below(L, primes, k):
+    """The k largest integers <= L whose prime factors are exactly the given primes (each present)."""
+    out = []
+
+    def rec(i, v):
+        if i == len(primes):
+            out.append(v)
+            return
+        v *= primes[i]
+        while v <= L:
+            rec(i + 1, v)
+            v *= primes[i]
+    rec(0, 1)
+    return sorted(out)[-k:]
+
+
+def three_primes_below(L):
+    """Product of the three largest primes <= cbrt(L): three large prime factors, product close to L."""
+    c = int(round(L ** (1.0 / 3)))
+    while c ** 3 > L:
+        c -= 1
+    ps = []
+    while c > 1 and len(ps) < 3:
+        if _is_prime(c):
+            ps.append(c)
+        c -= 1
+    return ps[0] * ps[1] * ps[2] if len(ps) == 3 else None
+
+
+def composite_pairs(t):
+    """Structured stand-in for 'random coprime pairs': coprime (N, D) whose parts have >= 3 prime factors
+    and lie next to the limits of T and of its promoted type (the partial products formed while a
+    magnitude's value is multiplied out approach the limit)."""
+    s = set()
+    for L in sorted({tmax(t), plim(t)[1]}):
+        a = smooth_below(L, (2, 3, 5), 2)
+        b = smooth_below(L, (7, 11, 13), 2)
+        c = three_primes_below(L) if L > 10 ** 6 else None
+        e = smooth_below(L, (3, 7, 11, 17), 1)
+        for x in a:
+            for y in b:
+                s |= {(x, y), (y, x)}
+        for x in a + b + e + ([c] if c else []):
+            s |= {(x, 1), (1, x)}
+        if c:
+            for y in a[-1:] + b[-1:]:
+                if gcd(c, y) == 1:
+                    s |= {(c, y), (y, c)}
+        for x in e:
+            for y in a[-1:]:
+                if gcd(x, y) == 1:
+                    s |= {(x, y), (y, x)}
+    return sorted(red(n, d) for (n, d) in s)
+
+
 def factor_grid(t, tier):
-    tm, pm = tmax(t), tmax(promoted(t))
+    tm, pm = tmax(t), plim(t)[1]
     s = set()
     for n in range(1, 13):
         for d in range(1, 13):
@@ -67,6 +177,8 @@ def factor_grid(t, tier):
     lims = {tm - 1, tm, tm + 1, pm - 1, pm, isqrt(tm) - 1, isqrt(tm), isqrt(tm) + 1,
             isqrt(pm) - 1, isqrt(pm), isqrt(pm) + 1, 2 ** (bits - 1), 2 ** bits - 1,
             2 ** (bits - 1) - 1, 2 ** (bits - 1) + 1}
+    bb = branch_boundaries(t) if bits < 32 else []
+    lims |= set(bb)
     for L in lims:
         if L < 2 or L >= 2 ** 64:
             continue
@@ -81,13 +193,37 @@ def factor_grid(t, tier):
         for b in corner:
             if a != b and 2 <= a < 2 ** 64 and 2 <= b < 2 ** 64:
                 s.add(red(a, b))
+    # the branch boundary `den > p_lim / t_lim` of the factor > 1 arms, straddled from both sides, with
+    # numerators just above the denominator, at the promoted limit, and far above
+    for b in bb:
+        for o in (b + 1, 2 * b + 1, pm, pm - 1, 3 * b + 1):
+            if b < o <= pm:
+                s.add(red(o, b))     # factor > 1, D = b
+                s.add(red(b, o))     # factor < 1, N = b
     for p in BIG_PRIMES:
         for c in (1, 3):
             s.add(red(p, c))
             s.add(red(c, p))
+    s |= set(composite_pairs(t))
     s.discard((1, 1))
     s = sorted(x for x in s if x[0] < 2 ** 64 and x[1] < 2 ** 64)
     return s
+
+
+def alias_grid(t):
+    """Reduced grid for the non-alias integral types: one factor per ApplyMagnitudeImpl /
+    Max/MinNonOverflowingValue branch, the limits, and the large primes (whose handling goes through
+    the uintmax_t/intmax_t identities of magnitude.hh)."""
+    tm, pm = tmax(t), plim(t)[1]
+    s = {(2, 1), (3, 1), (1000, 1), (tm, 1), (tm - 1, 1), (tm + 1, 1), (1, 2), (1, 3), (1, 1000), (1, tm),
+         (1, tm + 1), (2, 3), (5, 9), (127, 5000), (381, 1250), (3, 2), (9, 5), (5000, 127), (1250, 381),
+         (201168, 125), (tm, 2), (2, tm), (tm, tm - 1), (tm - 1, tm), (pm, 3), (3, pm), (pm, pm - 1),
+         (pm - 1, pm), (isqrt(pm) + 1, isqrt(pm)), (isqrt(pm), isqrt(pm) + 1), (pm + 1, 3), (3, pm + 1)}
+    for b in (branch_boundaries(t) if BITS[t] < 32 else []):
+        s |= {(b + 1, b), (pm, b), (b, b + 1)}
+    for p in BIG_PRIMES:
+        s |= {(p, 1), (1, p), (p, 3), (3, p)}
+    return sorted({red(n, d) for (n, d) in s if 0 < n < 2 ** 64 and 0 < d < 2 ** 64} - {(1, 1)})
 
 
 def full32_subset(t):
@@ -107,20 +243,36 @@ def full32_subset(t):
     return out
 
 
-def windows(t, n, d, r, r_small=24):
+def exact_bounds(t, n, d):
+    """Big-integer model of the non-overflowing inputs: x*N within the promoted type and x*N/D within T.
+    Returns (lo_strict, lo_loose, hi_strict, hi_loose): `strict` uses the rational comparison
+    x*N/D <= Tmax, `loose` accepts the don't-care band trunc(x*N/D) <= Tmax; clamped to T."""
+    tmn, tmx = tmin(t), tmax(t)
+    pmn, pmx = plim(t)
+    hs = min(min(pmx, tmx * d) // n, tmx)
+    hl = min(min(pmx, (tmx + 1) * d - 1) // n, tmx)
+    if tmn < 0:
+        ls = max(-(min(-pmn, (-tmn) * d) // n), tmn)
+        ll = max(-(min(-pmn, (-tmn + 1) * d - 1) // n), tmn)
+    else:
+        ls = ll = 0
+    return ls, ll, hs, hl
+
+
+def windows(t, n, d, r, r_small=24, residue_cap=0):
     """Breakpoint-complete window alphabet for a 32/64-bit instance -> merged [lo,hi] list."""
-    p = promoted(t)
-    tmn, tmx, pmn, pmx = tmin(t), tmax(t), tmin(p), tmax(p)
+    tmn, tmx = tmin(t), tmax(t)
+    pmn, pmx = plim(t)
     big = {0, 1, -1, tmn, tmx, tmn + 1, tmx - 1}
-    hi = min(pmx // n, (tmx * d) // n)
-    big |= {hi, hi + 1}
-    if tmn < 0:
-        lo = -min((-pmn) // n, ((-tmn) * d) // n)
-        big |= {lo, lo - 1}
+    ls, ll, hs, hl = exact_bounds(t, n, d)
+    big |= {hs, hs + 1, hl, hl + 1, ls, ls - 1, ll, ll - 1}
+    # thresholds of alternative plausible computations (wrong arm, wrong limit, rounding the other way)
     plaus = {tmx // n, pmx // n, (tmx * d) // n, pmx // d, (tmx // n) * d, tmx // d,
-             (pmx // n) * d, (pmx * d) // n, isqrt(tmx), isqrt(pmx)}
+             (pmx // n) * d, (pmx * d) // n, isqrt(tmx), isqrt(pmx), ((tmx + 1) * d) // n,
+             (pmx + 1) // n, -(-(tmx * d) // n), -(-pmx // n), (tmx * d + d - 1) // n}
     if tmn < 0:
-        plaus |= {-x for x in plaus} | {tmn // n, -((-tmn) // n), -(((-tmn) * d) // n)}
+        plaus |= {-x for x in plaus} | {tmn // n, -((-tmn) // n), -(((-tmn) * d) // n), -((-pmn) // n),
+                                        -(((-tmn) * d + d - 1) // n)}
     big |= plaus
     mult = set()
     for c in list(big):
@@ -135,6 +287,14 @@ def windows(t, n, d, r, r_small=24):
         iv.append((c - r, c + r))
     for c in small:
         iv.append((c - r_small, c + r_small))
+    # residue sweeps: truncation is periodic in x with period D -- every residue class, at mid-range
+    # offsets away from all breakpoints (3/7, 5/11, 9/13 of Tmax and half of the overflow threshold)
+    if 2 <= d <= residue_cap:
+        for base in (tmx * 3 // 7, tmx * 5 // 11, tmx * 9 // 13, hs // 2):
+            b = base // d * d
+            iv.append((b, b + d - 1))
+            if tmn < 0:
+                iv.append((-b - d + 1, -b))
     iv = [(max(a, tmn), min(b, tmx)) for a, b in iv if b >= tmn and a <= tmx]
     iv.sort()
     merged = []
@@ -164,25 +324,75 @@ def lit128(v):
     raise ValueError(v)
 
 
+# ---- instances -------------------------------------------------------------------------------------
+# shape == "" : source Meters, target the anonymous scaled unit, passed as a unit instance
+Inst = namedtuple("Inst", "id T N D src tgt shape")
+
+MPS = "decltype(au::Meters{} / au::Seconds{})"
+KMPH = "decltype(au::Kilo<au::Meters>{} / au::Hours{})"
+# (label, source unit type, target slot type, N, D): QuantityMaker and symbol slots, prefixed, named,
+# compound and powered library units, the identity and a distinct-but-equivalent target
+SHAPES = [
+    ("Feet->inches[maker]", "au::Feet", "decltype(au::inches)", 12, 1),
+    ("Inches->feet[maker]", "au::Inches", "decltype(au::feet)", 1, 12),
+    ("Kilo<Meters>->meters[maker]", "au::Kilo<au::Meters>", "decltype(au::meters)", 1000, 1),
+    ("Meters->kilo(meters)[maker]", "au::Meters", "decltype(au::kilo(au::meters))", 1, 1000),
+    ("Meters/Seconds->Kilo<Meters>/Hours", MPS, KMPH, 18, 5),
+    ("Kilo<Meters>/Hours->meters/second[maker]", KMPH, "decltype(au::meters / au::second)", 5, 18),
+    ("squared(Feet)->squared(inches)[maker]", "decltype(au::squared(au::Feet{}))", "decltype(au::squared(au::inches))", 144, 1),
+    ("cubed(Inches)->cubed(Feet)", "decltype(au::cubed(au::Inches{}))", "decltype(au::cubed(au::Feet{}))", 1, 1728),
+    ("Feet->meters[maker]", "au::Feet", "decltype(au::meters)", 381, 1250),
+    ("Meters->feet[maker]", "au::Meters", "decltype(au::feet)", 1250, 381),
+    ("Miles->meters[maker]", "au::Miles", "decltype(au::meters)", 201168, 125),
+    ("Meters->symbol_for(inches)", "au::Meters", "decltype(au::symbol_for(au::inches))", 5000, 127),
+    ("Percent->unos[maker]", "au::Percent", "decltype(au::unos)", 1, 100),
+    ("Meters->Meters", "au::Meters", "au::Meters", 1, 1),
+    ("Meters->meters[maker]", "au::Meters", "decltype(au::meters)", 1, 1),
+    ("Meters->Kilo<Milli<Meters>>", "au::Meters", "au::Kilo<au::Milli<au::Meters>>", 1, 1),
+]
+
+
+def candidates(tier):
+    c = []
+    for t in I8:
+        for (n, d) in factor_grid(t, tier):
+            c.append(Inst(len(c), t, n, d, "au::Meters", target_expr(n, d), ""))
+    for t in ALIAS_REPS:
+        for (n, d) in alias_grid(t):
+            c.append(Inst(len(c), t, n, d, "au::Meters", target_expr(n, d), ""))
+    for t in list(I8) + ["long long", "char"]:
+        for (label, src, tgt, n, d) in SHAPES:
+            c.append(Inst(len(c), t, n, d, src, tgt, label))
+    return c
+
+
+def ikey(i):
+    return "T=%s:N=%d:D=%d" % (i.T, i.N, i.D) + (":u=%s" % i.shape if i.shape else "")
+
+
 RUN_TEMPLATE = r'''
-#include "sweep.hh"
+#include "c03_sweep.hh"
 #include "c05_ubsan.hh"   // counts EVERY sanitizer event (the full runtime reports each location only once)
 static inline unsigned long ub_total() { return vf5_ub_arith + vf5_ub_fcast + vf5_ub_other; }
 namespace {
 template <bool B> using BoolC = std::integral_constant<bool, B>;
 
-static void emit_v(int id, const char *T, unsigned long long N, unsigned long long D,
+struct Extra {
+    unsigned long long ubchk_arith = 0, ubchk_other = 0, n_lat = 0, n_thr = 0;
+};
+
+static void emit_v(int id, const char *T, const char *shape, unsigned long long N, unsigned long long D,
                    const std::string &x, const char *kind, bool lt, bool lo, bool ll,
                    const vf::Exact &e, const std::string &got) {
-    std::printf("V {\"inst\":%d,\"T\":\"%s\",\"N\":\"%llu\",\"D\":\"%llu\",\"x\":\"%s\",\"kind\":\"%s\","
+    std::printf("V {\"inst\":%d,\"T\":\"%s\",\"u\":\"%s\",\"N\":\"%llu\",\"D\":\"%llu\",\"x\":\"%s\",\"kind\":\"%s\","
                 "\"lib\":{\"trunc\":%d,\"ovf\":%d,\"lossy\":%d},\"exact\":{\"trunc\":%d,\"prod_in_p\":%d,"
                 "\"outside_t\":%d,\"band\":%d,\"result\":\"%s%s\"},\"got\":\"%s\"}\n",
-                id, T, N, D, x.c_str(), kind, lt, lo, ll, e.trunc, e.prod_in_p, e.outside_t,
+                id, T, shape, N, D, x.c_str(), kind, lt, lo, ll, e.trunc, e.prod_in_p, e.outside_t,
                 e.band, e.neg ? "-" : "", vf::u128_str(e.q).c_str(), got.c_str());
 }
 
 template <typename I, typename T>
-void policy_path(BoolC<true>, au::Quantity<au::Meters, T> q, T expect, bool &bad, T &got) {
+void policy_path(BoolC<true>, au::Quantity<typename I::Src, T> q, T expect, bool &bad, T &got) {
     typename I::Target target{};
     T a = q.in(target);
     T b = q.as(target).in(target);
@@ -190,147 +400,246 @@ void policy_path(BoolC<true>, au::Quantity<au::Meters, T> q, T expect, bool &bad
     if (b != expect) { bad = true; got = b; }
 }
 template <typename I, typename T>
-void policy_path(BoolC<false>, au::Quantity<au::Meters, T>, T, bool &, T &) {}
+void policy_path(BoolC<false>, au::Quantity<typename I::Src, T>, T, bool &, T &) {}
+
+// the library's own compile-time thresholds (internal names; read only when they exist, see VF3_THRESHOLDS)
+template <typename I, bool ON> struct ThrMax { static bool get(typename I::T &) { return false; } };
+template <typename I, bool ON> struct ThrMin { static bool get(typename I::T &) { return false; } };
+#ifdef VF3_THRESHOLDS
+template <typename I> struct ThrMax<I, true> {
+    static bool get(typename I::T &v) {
+        typedef decltype(au::unit_ratio(typename I::Src{}, typename I::Target{})) M;
+        v = au::detail::MaxNonOverflowingValue<typename I::T, M>::value();
+        return true;
+    }
+};
+template <typename I> struct ThrMin<I, true> {
+    static bool get(typename I::T &v) {
+        typedef decltype(au::unit_ratio(typename I::Src{}, typename I::Target{})) M;
+        v = au::detail::MinNonOverflowingValue<typename I::T, M>::value();
+        return true;
+    }
+};
+#endif
+
+template <typename I>
+__attribute__((noinline)) void eval_one(int id, typename I::T x, vf::Stats &st, Extra &ex, int *shown) {
+    typedef typename I::T T;
+    typename I::Target target{};
+    constexpr bool POLICY =
+        au::implicit_rep_permitted_from_source_to_target<T>(typename I::Src{}, typename I::Target{});
+    const int SHOW = 3;
+    const auto q = au::make_quantity<typename I::Src>(x);
+    const vf5::UbSnap u0 = vf5::ub_now();
+    const bool lt = au::will_conversion_truncate(q, target);
+    const bool lo = au::will_conversion_overflow(q, target);
+    const bool ll = au::is_conversion_lossy(q, target);
+    const vf5::UbSnap uc = vf5::ub_since(u0);
+    const vf::Exact e = vf::exact_scale<T>(x, I::N, I::D);
+    ++st.evals;
+    st.n_trunc += lt;
+    st.n_ovf += lo;
+    st.n_band += e.band;
+    // sanitizer events inside the checkers: recorded, not judged (C04 speaks about the verdicts only)
+    ex.ubchk_arith += uc.arith;
+    ex.ubchk_other += uc.fcast + uc.other;
+    const char *kind = nullptr;
+    int slot = 0;
+    if (lt != e.trunc) { kind = lt ? "trunc-fp" : "trunc-fn"; slot = 0; }
+    else if (!e.band && lo != e.overflow()) { kind = lo ? "ovf-fp" : "ovf-fn"; slot = 1; }
+    else if (ll != (e.trunc || e.overflow())) { kind = ll ? "lossy-fp" : "lossy-fn"; slot = 2; }
+    else if (ll != (lt || lo)) { kind = "lossy-not-disjunction"; slot = 3; }
+    if (kind) {
+        ++st.n_viol;
+        if (shown[slot]++ < SHOW)
+            emit_v(id, I::tname(), I::shape(), I::N, I::D, vf::int_str(x), kind, lt, lo, ll, e, "");
+    }
+    if (!ll) {
+        ++st.n_cleared;
+        if (e.trunc || e.overflow()) {
+            // cleared although the exact computation is not exact/defined: never executed
+            ++st.n_viol;
+            if (shown[4]++ < SHOW)
+                emit_v(id, I::tname(), I::shape(), I::N, I::D, vf::int_str(x), "cleared-not-exact", lt, lo, ll, e, "");
+        } else {
+            const T expect = e.neg ? static_cast<T>(-(vf::i128)e.q) : static_cast<T>(e.q);
+            const unsigned long ub1 = ub_total();
+            const T r1 = q.coerce_in(target);
+            const T r2 = q.coerce_as(target).in(target);
+            bool bad = (r1 != expect) || (r2 != expect);
+            T got = (r1 != expect) ? r1 : r2;
+            policy_path<I, T>(BoolC<POLICY>{}, q, expect, bad, got);
+            st.n_policy += POLICY;
+            if (bad) {
+                ++st.n_viol;
+                if (shown[5]++ < SHOW)
+                    emit_v(id, I::tname(), I::shape(), I::N, I::D, vf::int_str(x), "cleared-wrong-value", lt, lo, ll, e,
+                           vf::int_str(got));
+            }
+            if (ub_total() != ub1) {
+                ++st.n_viol;
+                ++st.n_ubsan;
+                if (shown[7]++ < SHOW)
+                    emit_v(id, I::tname(), I::shape(), I::N, I::D, vf::int_str(x), "ubsan-in-conversion", lt, lo, ll, e, "");
+            }
+        }
+    }
+}
 
 template <typename I>
 void run(int id, const vf::Interval *iv, int niv) {
     typedef typename I::T T;
-    typename I::Target target{};
-    constexpr bool POLICY =
-        au::implicit_rep_permitted_from_source_to_target<T>(au::Meters{}, typename I::Target{});
     vf::Stats st;
+    Extra ex;
     int shown[8] = {0, 0, 0, 0, 0, 0, 0, 0};
-    const int SHOW = 3;
-    for (int k = 0; k < niv; ++k) {
-        for (vf::i128 v = iv[k].lo; v <= iv[k].hi; ++v) {
-            const T x = static_cast<T>(v);
-            const auto q = au::meters(x);
-            const unsigned long ub0 = ub_total();
-            const bool lt = au::will_conversion_truncate(q, target);
-            const bool lo = au::will_conversion_overflow(q, target);
-            const bool ll = au::is_conversion_lossy(q, target);
-            const vf::Exact e = vf::exact_scale<T>(x, I::N, I::D);
-            ++st.evals;
-            st.n_trunc += lt;
-            st.n_ovf += lo;
-            st.n_band += e.band;
-            const char *kind = nullptr;
-            int slot = 0;
-            if (lt != e.trunc) { kind = lt ? "trunc-fp" : "trunc-fn"; slot = 0; }
-            else if (!e.band && lo != e.overflow()) { kind = lo ? "ovf-fp" : "ovf-fn"; slot = 1; }
-            else if (ll != (e.trunc || e.overflow())) { kind = ll ? "lossy-fp" : "lossy-fn"; slot = 2; }
-            else if (ll != (lt || lo)) { kind = "lossy-not-disjunction"; slot = 3; }
-            if (ub_total() != ub0) { kind = "ubsan-in-checker"; slot = 6; ++st.n_ubsan; }
-            if (kind) {
-                ++st.n_viol;
-                if (shown[slot]++ < SHOW)
-                    emit_v(id, I::tname(), I::N, I::D, vf::int_str(x), kind, lt, lo, ll, e, "");
-            }
-            if (!ll) {
-                ++st.n_cleared;
-                if (e.trunc || e.overflow()) {
-                    // cleared although the exact computation is not exact/defined: never executed
-                    ++st.n_viol;
-                    if (shown[4]++ < SHOW)
-                        emit_v(id, I::tname(), I::N, I::D, vf::int_str(x), "cleared-not-exact", lt,
-                               lo, ll, e, "");
-                } else {
-                    const T expect = e.neg ? static_cast<T>(-(vf::i128)e.q) : static_cast<T>(e.q);
-                    const unsigned long ub1 = ub_total();
-                    const T r1 = q.coerce_in(target);
-                    const T r2 = q.coerce_as(target).in(target);
-                    bool bad = (r1 != expect) || (r2 != expect);
-                    T got = (r1 != expect) ? r1 : r2;
-                    policy_path<I, T>(BoolC<POLICY>{}, q, expect, bad, got);
-                    st.n_policy += POLICY;
-                    if (bad) {
-                        ++st.n_viol;
-                        if (shown[5]++ < SHOW)
-                            emit_v(id, I::tname(), I::N, I::D, vf::int_str(x), "cleared-wrong-value",
-                                   lt, lo, ll, e, vf::int_str(got));
-                    }
-                    if (ub_total() != ub1) {
-                        ++st.n_viol;
-                        ++st.n_ubsan;
-                        if (shown[7]++ < SHOW)
-                            emit_v(id, I::tname(), I::N, I::D, vf::int_str(x), "ubsan-in-conversion",
-                                   lt, lo, ll, e, "");
-                    }
-                }
-            }
-        }
+    for (int k = 0; k < niv; ++k)
+        for (vf::i128 v = iv[k].lo; v <= iv[k].hi; ++v) eval_one<I>(id, static_cast<T>(v), st, ex, shown);
+    if (I::LAT) {
+        for (T x : vf3::lattice<T>()) { eval_one<I>(id, x, st, ex, shown); ++ex.n_lat; }
+    }
+    // the library's thresholds: read out for the Python model, and the checker is evaluated on both
+    // sides of them (a shifted constant is then a value-level violation, whichever way it moved)
+    T tmaxv = 0, tminv = 0;
+    const bool hmax = ThrMax<I, I::RAT>::get(tmaxv);
+    const bool hmin = ThrMin<I, (I::RAT && std::is_signed<T>::value)>::get(tminv);
+    for (int w = 0; w < 2; ++w) {
+        if (!(w ? hmin : hmax)) continue;
+        const vf::i128 c = w ? (vf::i128)tminv : (vf::i128)tmaxv;
+        for (vf::i128 v = c - 2; v <= c + 2; ++v)
+            if (vf3::fits<T>(v)) { eval_one<I>(id, static_cast<T>(v), st, ex, shown); ++ex.n_thr; }
     }
     std::printf("S {\"inst\":%d,\"T\":\"%s\",\"N\":\"%llu\",\"D\":\"%llu\",\"evals\":%llu,\"trunc\":%llu,"
-                "\"ovf\":%llu,\"cleared\":%llu,\"band\":%llu,\"viol\":%llu,\"ubsan\":%llu,\"policy\":%llu}\n",
+                "\"ovf\":%llu,\"cleared\":%llu,\"band\":%llu,\"viol\":%llu,\"ubsan\":%llu,\"policy\":%llu,"
+                "\"ubchk_arith\":%llu,\"ubchk_other\":%llu,\"lat\":%llu,\"thr\":%llu,\"thr_max\":\"%s\",\"thr_min\":\"%s\"}\n",
                 id, I::tname(), (unsigned long long)I::N, (unsigned long long)I::D, st.evals,
-                st.n_trunc, st.n_ovf, st.n_cleared, st.n_band, st.n_viol, st.n_ubsan, st.n_policy);
+                st.n_trunc, st.n_ovf, st.n_cleared, st.n_band, st.n_viol, st.n_ubsan, st.n_policy,
+                ex.ubchk_arith, ex.ubchk_other, ex.n_lat, ex.n_thr,
+                hmax ? vf::int_str(tmaxv).c_str() : "", hmin ? vf::int_str(tminv).c_str() : "");
     std::fflush(stdout);
 }
 }  // namespace
 '''
 
 
-def emit_tu(path, insts, ivs):
-    """insts: list of (id, T, N, D); ivs: id -> list of (lo, hi)."""
-    out = [RUN_TEMPLATE, "namespace {"]
-    for (i, t, n, d) in insts:
-        out.append("struct I%d { typedef %s T; static constexpr std::uint64_t N = %dull, D = %dull; "
-                   "typedef %s Target; static const char *tname() { return \"%s\"; } };"
-                   % (i, t, n, d, target_expr(n, d), t))
-        arr = ", ".join("{%s, %s}" % (lit128(a), lit128(b)) for a, b in ivs[i])
-        out.append("static const vf::Interval IV%d[] = {%s};" % (i, arr))
+def inst_struct(i, lat):
+    rat = i.N != 1 and i.D != 1
+    return ("struct I%d { typedef %s T; typedef %s Src; static constexpr std::uint64_t N = %dull, D = %dull; "
+            "typedef %s Target; static constexpr bool LAT = %s, RAT = %s; "
+            "static const char *tname() { return \"%s\"; } static const char *shape() { return \"%s\"; } };"
+            % (i.id, i.T, i.src, i.N, i.D, i.tgt, "true" if lat else "false", "true" if rat else "false",
+               i.T, i.shape))
+
+
+def emit_tu(path, insts, ivs, thresholds=True, lattice=True):
+    """insts: list of Inst; ivs: id -> list of (lo, hi)."""
+    out = ["#define VF3_THRESHOLDS 1" if thresholds else "", RUN_TEMPLATE, "namespace {"]
+    for i in insts:
+        out.append(inst_struct(i, lattice and BITS[i.T] >= 32))
+        arr = ", ".join("{%s, %s}" % (lit128(a), lit128(b)) for a, b in ivs[i.id])
+        out.append("static const vf::Interval IV%d[] = {%s};" % (i.id, arr))
     out.append("}")
     out.append("int main(int argc, char **argv) {")
     out.append("  int part = argc > 1 ? std::atoi(argv[1]) : 0, nparts = argc > 2 ? std::atoi(argv[2]) : 1;")
     out.append("  int k = 0;")
-    for (i, t, n, d) in insts:
-        out.append("  if (k++ %% nparts == part) run<I%d>(%d, IV%d, %d);" % (i, i, i, len(ivs[i])))
+    for i in insts:
+        out.append("  if (k++ %% nparts == part) run<I%d>(%d, IV%d, %d);" % (i.id, i.id, i.id, len(ivs[i.id])))
     out.append("  return 0; }")
     with open(path, "w") as f:
         f.write("\n".join(out) + "\n")
 
 
+CHECKERS = ("will_conversion_overflow", "will_conversion_truncate", "is_conversion_lossy")
+
+
+def conv_code(i):
+    return ("using Tg = %s; auto q = au::make_quantity<%s>(static_cast<%s>(1)); (void)q.coerce_in(Tg{}); "
+            "(void)q.coerce_as(Tg{});" % (i.tgt, i.src, i.T))
+
+
+def chk_code(i, which=CHECKERS):
+    return ("using Tg = %s; auto q = au::make_quantity<%s>(static_cast<%s>(1)); " % (i.tgt, i.src, i.T) +
+            " ".join("(void)au::%s(q, Tg{});" % w for w in which))
+
+
 def domain_probes(run, cfg, cands):
-    """cands: list of (T,N,D) -> set of those for which coerce_in compiles (observed)."""
-    probes = []
-    for idx, (t, n, d) in enumerate(cands):
-        code = ("using Tg = %s; auto q = au::meters(%s{1}); (void)q.coerce_in(Tg{}); "
-                "(void)q.coerce_as(Tg{}); (void)au::will_conversion_overflow(q, Tg{}); "
-                "(void)au::will_conversion_truncate(q, Tg{}); (void)au::is_conversion_lossy(q, Tg{});"
-                % (target_expr(n, d), t))
-        probes.append(core.Probe(idx, code, "accept" if predicted_domain(t, n, d) else "reject",
-                                 {"T": t, "N": n, "D": d}))
-    res, _ = core.run_probes(cfg, probes, os.path.join(run.wd, "dom"), "dom", flags=cflags(cfg))
-    dom, mism = [], []
-    for p in probes:
+    """Two separate compile domains, each observed by compiling the probe alone where it matters:
+    the conversion (coerce_in / coerce_as) and the three checkers.  Returns
+    (dom, grew, problems): dom = instances whose conversion AND checkers compile; grew = conversion
+    compiles although the documented structure predicts a rejection (swept like any other instance);
+    problems = [(kind, inst, detail, replay_code)] for a shrunken conversion domain (predicted accept,
+    rejected) and for checkers that do not compile where the conversion does."""
+    wd = os.path.join(run.wd, "dom")
+    fl = cflags(cfg)
+    pr = [core.Probe(i.id, conv_code(i), "accept" if predicted_domain(i.T, i.N, i.D) else "reject") for i in cands]
+    pc = [core.Probe(i.id, chk_code(i), "accept") for i in cands if predicted_domain(i.T, i.N, i.D)]
+    (res, _), (resc, _) = core.pmap(lambda a: core.run_probes(cfg, a[0], wd, a[1], flags=fl),
+                                    [(pr, "conv"), (pc, "chk")], workers=2)
+    byid = {i.id: i for i in cands}
+    conv_ok = [i for i in cands if res[i.id][0] == "accept"]
+    grew = [i for i in conv_ok if not predicted_domain(i.T, i.N, i.D)]
+    if grew:   # the checkers of instances outside the predicted domain were not probed yet
+        r2, _ = core.run_probes(cfg, [core.Probe(i.id, chk_code(i), "accept") for i in grew], wd, "chk2", flags=fl)
+        resc.update(r2)
+    problems = []
+    for p in pr:
         v, diag = res[p.pid]
-        if v == "accept":
-            dom.append(cands[p.pid])
-        if v != p.expect:
-            mism.append({"T": p.meta["T"], "N": str(p.meta["N"]), "D": str(p.meta["D"]),
-                         "predicted": p.expect, "observed": v, "diag": diag})
-    return dom, mism
+        if p.expect == "accept" and v != "accept":
+            problems.append(("conversion-no-compile", byid[p.pid], diag, p.code))
+    bad_chk = [i for i in conv_ok if resc[i.id][0] != "accept"]
+    if bad_chk:   # name the checker(s)
+        singles = [core.Probe(k, chk_code(i, (w,)), "accept", {"i": i, "w": w})
+                   for k, (i, w) in enumerate((i, w) for i in bad_chk for w in CHECKERS)]
+        r3, _ = core.run_probes(cfg, singles, wd, "chk1", flags=fl)
+        for p in singles:
+            if r3[p.pid][0] != "accept":
+                problems.append(("checker-no-compile", p.meta["i"], "%s: %s" % (p.meta["w"], r3[p.pid][1]), p.code))
+        for i in bad_chk:   # all three compile alone but not together: still a loss
+            if not any(k == "checker-no-compile" and j.id == i.id for k, j, _, _ in problems):
+                problems.append(("checker-no-compile", i, "together: %s" % resc[i.id][1], chk_code(i)))
+    badids = {i.id for i in bad_chk}
+    dom = [i for i in conv_ok if i.id not in badids]
+    return dom, grew, problems
 
 
-def build_and_run(run, cfg, tag, insts, ivs, flags, nsplit, parts_per_bin=1, timeout=7200):
-    """Split instances over nsplit TUs, build all, run all; returns (stats, violations)."""
+def build_and_run(run, cfg, tag, insts, ivs, flags, nsplit, parts_per_bin=1, timeout=7200, thresholds=True,
+                  lattice=True):
+    """Split instances over nsplit TUs, build all, run all; returns (stats, violations, nocompile).
+    nocompile: [(Inst, diag)] -- instances whose sweep code does not compile although their probes were
+    accepted (found by compiling each instance of a failing TU alone); they are dropped and reported."""
     wd = os.path.join(run.wd, tag)
     os.makedirs(wd, exist_ok=True)
     groups = [insts[i::nsplit] for i in range(nsplit)]
     groups = [g for g in groups if g]
     fl = ["-O2"] + list(flags) + cflags(cfg)
+    nocompile = []
 
     def build(k):
         src = os.path.join(wd, "sw%d.cc" % k)
         exe = os.path.join(wd, "sw%d" % k)
-        emit_tu(src, groups[k], ivs)
+        emit_tu(src, groups[k], ivs, thresholds, lattice)
         rc, err = core.build_exe(cfg, src, exe, fl)
         if rc != 0:
-            raise core.InfraError("sweep TU failed to build (%s):\n%s" % (src, err[-3000:]))
+            bad = []
+            for i in groups[k]:
+                s1 = os.path.join(wd, "sw%d_i%d.cc" % (k, i.id))
+                emit_tu(s1, [i], ivs, thresholds, lattice)
+                rc1, err1 = core.syntax_check(cfg, s1, fl)
+                if rc1 != 0:
+                    bad.append((i, core._first_error(err1)))
+            if not bad:
+                raise core.InfraError("sweep TU failed to build (%s):\n%s" % (src, err[-3000:]))
+            nocompile.extend(bad)
+            keep = [i for i in groups[k] if i.id not in {b[0].id for b in bad}]
+            if not keep:
+                return None
+            emit_tu(src, keep, ivs, thresholds, lattice)
+            rc, err = core.build_exe(cfg, src, exe, fl)
+            if rc != 0:
+                raise core.InfraError("sweep TU failed to build (%s):\n%s" % (src, err[-3000:]))
         return exe
 
     core.pch_dir(cfg, fl)
-    exes = core.pmap(build, range(len(groups)))
+    exes = [e for e in core.pmap(build, range(len(groups))) if e]
     jobs = [(e, p) for e in exes for p in range(parts_per_bin)]
 
     def runexe(job):
@@ -349,12 +658,96 @@ def build_and_run(run, cfg, tag, insts, ivs, flags, nsplit, parts_per_bin=1, tim
                 stats.append(json.loads(line[2:]))
             elif line.startswith("V "):
                 viols.append(json.loads(line[2:]))
-    return stats, viols
+    return stats, viols, nocompile
 
 
-C03_KINDS = {"cleared-not-exact", "cleared-wrong-value", "ubsan-in-conversion"}
+# ---- constant-expression use (all six configurations) ---------------------------------------------
+
+def cx_lit(t, v):
+    if v == -2 ** 63:
+        return "static_cast<%s>(-9223372036854775807LL-1)" % t
+    return "static_cast<%s>(%d%s)" % (t, v, "ULL" if v >= 2 ** 63 else "LL")
+
+
+def model_verdicts(t, n, d, x):
+    """(trunc, overflow or None inside the don't-care band, exact result or None) by big integers."""
+    tmn, tmx = tmin(t), tmax(t)
+    pmn, pmx = plim(t)
+    prod = x * n
+    tr = prod % d != 0
+    q = abs(prod) // d * (1 if prod >= 0 else -1)   # truncation toward zero
+    in_p = pmn <= prod <= pmx
+    outside = prod > tmx * d or prod < tmn * d
+    band = outside and tmn <= q <= tmx
+    ovf = None if (band and in_p) else (not in_p or outside)
+    res = q if (in_p and not outside and not tr) else None
+    return tr, ovf, res
+
+
+CX_FACTORS = [(1, 1), (3, 1), (1, 3), (2, 3), (3, 2), (1250, 381), (5, 9), (1000, 1), (1, 1000)]
+
+
+def constexpr_probes(run, kinds, reps):
+    """static_assert-evaluated checkers (C04) and conversions of cleared values (C03) under all six
+    compiler/standard configurations; expected constants from the big-integer model.  A probe that does
+    not compile (not a constant expression -- which includes UB met by the constant evaluator -- or a
+    different constant) is a violation."""
+    want_chk = "constexpr-checker" in kinds
+    probes = []
+    for t in reps:
+        for (n, d) in CX_FACTORS:
+            if not predicted_domain(t, n, d):
+                continue
+            ls, ll, hs, hl = exact_bounds(t, n, d)
+            xs = sorted(x for x in {0, 1, d, 7 * d, hs, hs + 1, hl + 1, hs // d * d, ls, ls - 1, ll - 1, -d,
+                                    tmax(t), tmin(t)} if tmin(t) <= x <= tmax(t))
+            tg = "au::Meters" if (n, d) == (1, 1) else target_expr(n, d)
+            asserts = []
+            for x in xs:
+                tr, ovf, res = model_verdicts(t, n, d, x)
+                q = "au::meters(%s)" % cx_lit(t, x)
+                b = lambda v: "true" if v else "false"
+                if want_chk:
+                    asserts.append("static_assert(au::will_conversion_truncate(%s, Tg{}) == %s, \"\");" % (q, b(tr)))
+                    if ovf is not None:
+                        asserts.append("static_assert(au::will_conversion_overflow(%s, Tg{}) == %s, \"\");" % (q, b(ovf)))
+                        asserts.append("static_assert(au::is_conversion_lossy(%s, Tg{}) == %s, \"\");" % (q, b(tr or ovf)))
+                elif res is not None:
+                    asserts.append("static_assert(%s.coerce_in(Tg{}) == %s, \"\");" % (q, cx_lit(t, res)))
+                    asserts.append("static_assert(%s.coerce_as(Tg{}).in(Tg{}) == %s, \"\");" % (q, cx_lit(t, res)))
+            if asserts:
+                probes.append(({"T": t, "N": n, "D": d}, "using Tg = %s; " % tg + " ".join(asserts)))
+    kind = "constexpr-checker" if want_chk else "constexpr-conversion"
+    out, nacc = [], 0
+    core.pmap(lambda c: core.pch_dir(c, cflags(c)), core.CFG6)
+
+    def one(cfg):
+        pl = [core.Probe(k, code, "accept", meta) for k, (meta, code) in enumerate(probes)]
+        res, _ = core.run_probes(cfg, pl, os.path.join(run.wd, "cx"), "cx", flags=cflags(cfg))
+        return cfg, pl, res
+    for cfg, pl, res in core.pmap(one, core.CFG6, workers=3):
+        for p in pl:
+            v, diag = res[p.pid]
+            if v == "accept":
+                nacc += 1
+            else:
+                out.append((kind, p.meta, cfg, diag, p.code))
+    return out, nacc, len(probes) * len(core.CFG6)
+
+
+C03_KINDS = {"cleared-not-exact", "cleared-wrong-value", "ubsan-in-conversion", "conversion-no-compile",
+             "checker-no-compile", "sweep-no-compile", "constexpr-conversion"}
 C04_KINDS = {"trunc-fp", "trunc-fn", "ovf-fp", "ovf-fn", "lossy-fp", "lossy-fn",
-             "lossy-not-disjunction", "ubsan-in-checker"}
+             "lossy-not-disjunction", "conversion-no-compile", "checker-no-compile", "sweep-no-compile",
+             "constexpr-checker"}
+
+
+def thresholds_available(run, cfg):
+    code = ("typedef decltype(au::unit_ratio(au::Meters{}, %s{})) M; "
+            "(void)au::detail::MaxNonOverflowingValue<int, M>::value(); "
+            "(void)au::detail::MinNonOverflowingValue<int, M>::value();" % target_expr(2, 3))
+    res, _ = core.run_probes(cfg, [core.Probe(0, code, "accept")], os.path.join(run.wd, "dom"), "thr", flags=cflags(cfg))
+    return res[0][0] == "accept"
 
 
 def explore(run, kinds):
@@ -362,83 +755,177 @@ def explore(run, kinds):
     tier = run.tier
     gcfg = core.GXX14
     ccfg = core.CLANG14
-    cands = []
-    for t in I8:
-        for (n, d) in factor_grid(t, tier):
-            cands.append((t, n, d))
-    dom, mism = domain_probes(run, gcfg, cands)
-    if len(dom) < 0.5 * len(cands):
+    cands = candidates(tier)
+    phases = {}
+    dom, grew, problems = domain_probes(run, gcfg, cands)
+    have_thr = thresholds_available(run, gcfg)
+    phases["domain_probes"] = round(run.elapsed(), 1)
+    if len(dom) + len({p[1].id for p in problems}) < 0.5 * len(cands):   # lost-and-reported instances are not vacuous
         raise core.InfraError("vacuity guard: only %d of %d factor-grid instances are in-domain"
                               % (len(dom), len(cands)))
     r = 2 ** 12 if tier == "quick" else 2 ** 16
+    cap = 2 ** 12 if tier == "quick" else 2 ** 16
     insts, ivs = [], {}
-    for idx, (t, n, d) in enumerate(dom):
-        insts.append((idx, t, n, d))
-        if BITS[t] <= 16:
-            ivs[idx] = [(tmin(t), tmax(t))]
+    for i in dom:
+        insts.append(i)
+        if BITS[i.T] <= 16:
+            ivs[i.id] = [(tmin(i.T), tmax(i.T))]
         else:
-            ivs[idx] = windows(t, n, d, r if BITS[t] == 64 or tier == "quick" else 2 ** 14)
+            ivs[i.id] = windows(i.T, i.N, i.D, r if BITS[i.T] == 64 or tier == "quick" else 2 ** 14,
+                                residue_cap=cap)
     allstats, allviols = [], []
     # plain g++ build: the deciding oracle comparison
-    s, v = build_and_run(run, gcfg, "plain", insts, ivs, [], nsplit=core.NCPU * 2)
+    s, v, nc = build_and_run(run, gcfg, "plain", insts, ivs, [], nsplit=core.NCPU * 2, thresholds=have_thr)
     allstats += [dict(x, build="g++") for x in s]
     allviols += [dict(x, build="g++ -O2") for x in v]
+    phases["sweep g++ -O2"] = round(run.elapsed(), 1)
+    for i, diag in nc:
+        problems.append(("sweep-no-compile", i, "g++ -O2: " + diag, None))
     # clang + UBSan (signed overflow, unsigned wrap, value-changing implicit narrowing) observer
     san = list(SAN)
-    s2, v2 = build_and_run(run, ccfg, "ubsan", insts, ivs, san, nsplit=core.NCPU * 2)
+    s2, v2, nc2 = build_and_run(run, ccfg, "ubsan", insts, ivs, san, nsplit=core.NCPU * 2, thresholds=have_thr)
     allstats += [dict(x, build="clang-ubsan") for x in s2]
     allviols += [dict(x, build="clang++ -O2 ubsan") for x in v2]
-    full = []
+    phases["sweep clang++ -O2 ubsan"] = round(run.elapsed(), 1)
+    for i, diag in nc2:
+        if i.id not in {j.id for j, _ in nc}:
+            problems.append(("sweep-no-compile", i, "clang++ -O2 ubsan: " + diag, None))
+    full, full_skipped = [], None
     if tier == "thorough":
         finsts, fivs = [], {}
         k = 100000
         for t in ("int32_t", "uint32_t"):
             for (n, d) in full32_subset(t):
-                if (t, n, d) in set(dom) or predicted_domain(t, n, d):
-                    finsts.append((k, t, n, d))
+                if predicted_domain(t, n, d):
+                    finsts.append(Inst(k, t, n, d, "au::Meters", target_expr(n, d), ""))
                     fivs[k] = [(tmin(t), tmax(t))]
                     k += 1
-        s3, v3 = build_and_run(run, ccfg, "full32", finsts, fivs, san, nsplit=len(finsts))
-        allstats += [dict(x, build="clang-ubsan-full32") for x in s3]
-        allviols += [dict(x, build="clang++ -O2 ubsan") for x in v3]
+        # waves of NCPU instances; stop between waves when the deadline would be overrun
+        import time as _time
+        done, wave_s, full_skipped = [], None, None
+        for w in range(0, len(finsts), core.NCPU):
+            wave = finsts[w:w + core.NCPU]
+            need = (wave_s * 1.3 + 30) if wave_s else 240.0
+            if run.time_left() < need + 120:   # 120 s reserved for the constexpr probes and the report
+                full_skipped = {"instances_not_run": ["%s x%d/%d" % (i.T, i.N, i.D) for i in finsts[w:]],
+                                "reason": "deadline guard: %.0fs left, about %.0fs needed for the next wave" % (
+                                    run.time_left(), need)}
+                break
+            t0 = _time.time()
+            s3, v3, nc3 = build_and_run(run, ccfg, "full32_%d" % w, wave, fivs, san, nsplit=len(wave), thresholds=False,
+                                        lattice=False)
+            wave_s = _time.time() - t0
+            allstats += [dict(x, build="clang-ubsan-full32") for x in s3]
+            allviols += [dict(x, build="clang++ -O2 ubsan") for x in v3]
+            for i, diag in nc3:
+                problems.append(("sweep-no-compile", i, "clang++ -O2 ubsan (full 2^32): " + diag, None))
+            done += wave
+        finsts = done
         full = finsts
-    # report
+    phases["full 2^32 sweeps"] = round(run.elapsed(), 1)
+    cx, cx_ok, cx_total = constexpr_probes(run, kinds, list(I8) + list(ALIAS_REPS))
+    phases["constexpr_probes"] = round(run.elapsed(), 1)
+    # report: value-level violations
+    byid = {i.id: i for i in insts + full}
     nviol = 0
     for v in allviols:
         if v["kind"] not in kinds:
             continue
-        key = "%s:%s:T=%s:N=%s:D=%s:x=%s" % (run.prop, v["kind"], v["T"], v["N"], v["D"], v["x"])
-        what = ("%s for %s x=%s factor=%s/%s: library trunc=%d ovf=%d lossy=%d; exact trunc=%d "
+        i = byid[v["inst"]]
+        key = "%s:%s:%s:x=%s" % (run.prop, v["kind"], ikey(i), v["x"])
+        what = ("%s for %s x=%s factor=%s/%s%s: library trunc=%d ovf=%d lossy=%d; exact trunc=%d "
                 "prod_in_promoted=%d outside_T=%d result=%s got=%s [%s]" % (
-                    v["kind"], v["T"], v["x"], v["N"], v["D"], v["lib"]["trunc"], v["lib"]["ovf"],
+                    v["kind"], v["T"], v["x"], v["N"], v["D"], (" (%s)" % i.shape) if i.shape else "",
+                    v["lib"]["trunc"], v["lib"]["ovf"],
                     v["lib"]["lossy"], v["exact"]["trunc"], v["exact"]["prod_in_p"],
                     v["exact"]["outside_t"], v["exact"]["result"], v.get("got", ""), v["build"]))
         if run.match_known(key) is None:
-            rp = run.write_replay(key, {"kind": "value", "instance": {"T": v["T"], "N": v["N"],
-                                                                      "D": v["D"]},
+            rp = run.write_replay(key, {"kind": "value", "instance": {"T": v["T"], "N": v["N"], "D": v["D"],
+                                                                      "src": i.src, "tgt": i.tgt, "shape": i.shape},
                                         "value": v["x"], "observed": v, "what": what})
             run.violation(key, what, rp)
         else:
             run.violation(key, what)
         nviol += 1
+    # report: lost compile domain
+    for kind, i, diag, code in problems:
+        if kind not in kinds:
+            continue
+        key = "%s:%s:%s" % (run.prop, kind, ikey(i))
+        if kind == "checker-no-compile":
+            key += ":fn=" + diag.split(":")[0]
+        what = {"conversion-no-compile": "q.coerce_in / q.coerce_as no longer compile for %s, factor %d/%d%s although "
+                                         "numerator and denominator are representable: %s",
+                "checker-no-compile": "the conversion compiles for %s, factor %d/%d%s but a runtime checker does not: %s",
+                "sweep-no-compile": "conversion and checkers compile alone for %s, factor %d/%d%s but the sweep (which "
+                                    "adds .in/.as where the policy trait permits them) does not: %s"}[kind] % (
+            i.T, i.N, i.D, (" (%s)" % i.shape) if i.shape else "", diag)
+        rec = {"kind": "probe", "cfg": [gcfg.cxx, gcfg.std], "code": code, "what": what} if code else \
+              {"kind": "sweep-build", "instance": {"T": i.T, "N": str(i.N), "D": str(i.D), "src": i.src, "tgt": i.tgt,
+                                                   "shape": i.shape}, "what": what}
+        run.violation(key, what, run.write_replay(key, rec))
+        nviol += 1
+    for kind, meta, cfg, diag, code in cx:
+        key = "%s:%s:T=%s:N=%d:D=%d:cfg=%s" % (run.prop, kind, meta["T"], meta["N"], meta["D"], cfg.name)
+        what = ("%s: static_assert-evaluated %s for %s, factor %d/%d under %s: %s" % (
+            kind, "checkers differ from the exact verdicts or are not constant expressions" if kind.endswith("checker")
+            else "conversion of checker-cleared values is not a constant expression (UB or non-constexpr) or differs "
+                 "from the exact result", meta["T"], meta["N"], meta["D"], cfg, diag))
+        run.violation(key, what, run.write_replay(key, {"kind": "probe", "cfg": [cfg.cxx, cfg.std], "code": code,
+                                                        "what": what}))
+        nviol += 1
+    # thresholds against the big-integer model
+    thr = {"read": 0, "equal_strict_model": 0, "inside_dont_care_band": 0, "differ": []}
+    for s in allstats:
+        if s["build"] != "g++" or not s.get("thr_max"):
+            continue
+        i = byid[s["inst"]]
+        ls, ll, hs, hl = exact_bounds(i.T, i.N, i.D)
+        mx = int(s["thr_max"])
+        mn = int(s["thr_min"]) if s.get("thr_min") else None
+        thr["read"] += 1
+        ok_strict = mx == hs and (mn is None or mn == ls)
+        ok_band = hs <= mx <= hl and (mn is None or ll <= mn <= ls)
+        if ok_strict:
+            thr["equal_strict_model"] += 1
+        elif ok_band:
+            thr["inside_dont_care_band"] += 1
+        elif len(thr["differ"]) < 20:
+            # the checker was evaluated around the library's constant AND around the model's: if the
+            # constant is really what the checker compares with, a value violation was reported above
+            thr["differ"].append({"T": i.T, "N": str(i.N), "D": str(i.D), "lib_max": mx, "lib_min": mn,
+                                  "model": [ls, hs], "value_violations": s["viol"]})
     evals = sum(s["evals"] for s in allstats)
     nontriv = sum(1 for s in allstats if s["build"] == "g++" and s["cleared"] > 0 and
                   s["cleared"] < s["evals"])
     vac = [s for s in allstats if s["build"] == "g++" and s["evals"] == 0]
     if vac:
         raise core.InfraError("vacuous instances: %s" % vac[:3])
+    ubchk = {"signed_or_promoted_arith": 0, "unsigned_wrap": 0, "other": 0}
+    for s in allstats:
+        t = s["T"]
+        ubchk["unsigned_wrap" if (not is_signed(t) and BITS[t] >= 32) else "signed_or_promoted_arith"] += s.get("ubchk_arith", 0)
+        ubchk["other"] += s.get("ubchk_other", 0)
     return {
-        "evaluations": evals,
+        "evaluations": evals + cx_total,
         "instances_in_domain": len(dom), "instances_candidates": len(cands),
-        "domain_mismatch": mism[:20], "domain_mismatch_count": len(mism),
+        "instances_by_rep": {t: sum(1 for i in dom if i.T == t) for t in list(I8) + list(ALIAS_REPS)},
+        "instances_shaped_units": sum(1 for i in dom if i.shape),
+        "domain_grew": [ikey(i) for i in grew][:20], "domain_grew_count": len(grew),
+        "domain_lost_count": len(problems),
         "cleared_conversions_executed": sum(s["cleared"] for s in allstats),
         "policy_permitted_in_as_executed": sum(s["policy"] for s in allstats),
         "dont_care_band_values": sum(s["band"] for s in allstats),
         "ubsan_reports": sum(s["ubsan"] for s in allstats),
-        "full_2pow32_instances": len(full),
+        "sanitizer_events_inside_checkers_recorded_not_judged": ubchk,
+        "lattice_values": sum(s.get("lat", 0) for s in allstats),
+        "threshold_window_values": sum(s.get("thr", 0) for s in allstats),
+        "library_thresholds_vs_model": thr if have_thr else "internal names not available: not read",
+        "constexpr_probes": {"accepted": cx_ok, "total": cx_total, "configs": [str(c) for c in core.CFG6]},
+        "full_2pow32_instances": len(full), "full_2pow32_skipped": full_skipped,
         "distinct_nontrivial": nontriv,
-        "window_radius_64bit": r,
-        "raw_violation_records": nviol,
+        "window_radius_64bit": r, "residue_sweep_max_denominator": cap,
+        "raw_violation_records": nviol, "phase_end_wall_s": phases,
         "samples": [{"T": s["T"], "N": s["N"], "D": s["D"], "values": s["evals"],
                      "lossy": s["evals"] - s["cleared"], "cleared_and_executed": s["cleared"]}
                     for s in allstats[:: max(1, len(allstats) // 6)]][:8],
@@ -446,19 +933,45 @@ def explore(run, kinds):
 
 
 def replay(path, prop):
-    """Re-run exactly one (instance, value) stand-alone; exit 1 iff the violation reproduces."""
+    """Re-run exactly one case stand-alone; exit 1 iff the violation reproduces."""
     r = json.load(open(path))
-    t, n, d = r["instance"]["T"], int(r["instance"]["N"]), int(r["instance"]["D"])
-    x = int(r["value"])
     run = core.Run(prop, "quick", "exploration")
     run.wd = os.path.join(core.BUILD, prop, "replay")
     os.makedirs(run.wd, exist_ok=True)
     kinds = C03_KINDS if prop == "C03" else C04_KINDS
-    san = list(SAN)
+    if r.get("kind") == "float-value":
+        return replay_float(run, r, path)
+    if r.get("kind") == "probe":
+        cfg = core.Cfg(*r["cfg"])
+        res, _ = core.run_probes(cfg, [core.Probe(0, r["code"], "accept")], run.wd, "rp", flags=cflags(cfg))
+        if res[0][0] != "accept":
+            print("reproduced: %s" % res[0][1])
+            print("VIOLATION property=%s replay=%s" % (prop, path))
+            return 1
+        print("not reproduced on the current tree: the probe compiles")
+        return 0
+    ii = r["instance"]
+    t, n, d = ii["T"], int(ii["N"]), int(ii["D"])
+    inst = Inst(0, t, n, d, ii.get("src", "au::Meters"), ii.get("tgt", target_expr(n, d)), ii.get("shape", ""))
+    have_thr = thresholds_available(run, core.GXX14)
+    if r.get("kind") == "sweep-build":
+        ivs = {0: [(0, 0)]}
+        hits = []
+        for cfg, fl, tag in ((core.GXX14, [], "rp"), (core.CLANG14, list(SAN), "rpsan")):
+            s, v, nc = build_and_run(run, cfg, tag, [inst], ivs, fl, nsplit=1, thresholds=have_thr)
+            hits += nc
+        if hits:
+            print("reproduced: %s" % hits[0][1])
+            print("VIOLATION property=%s replay=%s" % (prop, path))
+            return 1
+        print("not reproduced on the current tree: the sweep TU of %s builds" % ikey(inst))
+        return 0
+    x = int(r["value"])
     hits = []
-    for cfg, fl, tag in ((core.GXX14, [], "rp"), (core.CLANG14, san, "rpsan")):
-        s, v = build_and_run(run, cfg, tag, [(0, t, n, d)], {0: [(x, x)]}, fl, nsplit=1)
-        hits += [dict(z, build=str(cfg)) for z in v if z["kind"] in kinds]
+    for cfg, fl, tag in ((core.GXX14, [], "rp"), (core.CLANG14, list(SAN), "rpsan")):
+        s, v, nc = build_and_run(run, cfg, tag, [inst], {0: [(x, x)]}, fl, nsplit=1, thresholds=False,
+                                 lattice=False)
+        hits += [dict(z, build=str(cfg)) for z in v if z["kind"] in kinds and z["x"] == r["value"]]
     for h in hits:
         print("reproduced:", json.dumps(h))
     if hits:
@@ -547,7 +1060,7 @@ void runf(int id) {
 '''
 
 
-def explore_float(run):
+def explore_float(run, only=None):
     from . import model
     from .checks.c06 import mag_expr
     from fractions import Fraction as Fr
@@ -561,15 +1074,22 @@ def explore_float(run):
             ("2^1023", model.vpow(model.mag_int(2), 1023)), ("2^-1000", model.vpow(model.mag_int(2), -1000)),
             ("1250/381", model.mag_ratio(1250, 381)), ("381/1250", model.mag_ratio(381, 1250)), ("5/9", model.mag_ratio(5, 9)), ("3600", model.mag_int(3600)),
             ("pi", dict(model.MAG_PI)), ("180/pi", model.vdiv(model.mag_int(180), model.MAG_PI)), ("pi/180", model.vdiv(model.MAG_PI, model.mag_int(180))),
-            ("sqrt2", {2: Fr(1, 2)}), ("3", model.mag_int(3)), ("1/3", model.mag_ratio(1, 3)), ("2^64-59", model.mag_int(2 ** 64 - 59))]
-    cands = [(t, name, m) for t in core.F3 for name, m in mags]
+            ("sqrt2", {2: Fr(1, 2)}), ("3", model.mag_int(3)), ("1/3", model.mag_ratio(1, 3)), ("2^64-59", model.mag_int(2 ** 64 - 59)),
+            # round 3: factors adjacent to the representability edge of double, and factors just above / below 1
+            ("10^308", model.vpow(model.mag_int(10), 308)), ("10^309", model.vpow(model.mag_int(10), 309)),
+            ("10^-308", model.vpow(model.mag_int(10), -308)), ("(2^24+1)/2^24", model.mag_ratio(2 ** 24 + 1, 2 ** 24)),
+            ("2^24/(2^24+1)", model.mag_ratio(2 ** 24, 2 ** 24 + 1)), ("1001/1000", model.mag_ratio(1001, 1000)),
+            ("999/1000", model.mag_ratio(999, 1000))]
+    if only is not None:
+        mags = [x for x in mags if x[0] == only[1]]
+    cands = [(t, name, m) for t in core.F3 for name, m in mags if only is None or t == only[0]]
     probes = []
     for idx, (t, name, m) in enumerate(cands):
         tgt = "decltype(au::Meters{} / (%s))" % mag_expr(m)
         probes.append(core.Probe(idx, "using Tg = %s; auto q = au::meters(static_cast<%s>(1)); (void)q.coerce_in(Tg{}); (void)au::will_conversion_overflow(q, Tg{});" % (tgt, t), "accept"))
     res, _ = core.run_probes(cfg, probes, os.path.join(run.wd, "fdom"), "fdom", flags=cflags(cfg))
     dom = [c for i, c in enumerate(cands) if res[i][0] == "accept"]
-    if len(dom) < 0.5 * len(cands):
+    if len(dom) < 0.5 * len(cands) and only is None:
         raise core.InfraError("float clause vacuity guard: %d of %d instances compile" % (len(dom), len(cands)))
     wd = os.path.join(run.wd, "float")
     os.makedirs(wd, exist_ok=True)
@@ -586,27 +1106,49 @@ def explore_float(run):
     out.append("  return 0; }")
     src = os.path.join(wd, "fl.cc")
     open(src, "w").write("\n".join(out) + "\n")
-    exe = os.path.join(wd, "fl")
-    fl = ["-O1"] + cflags(cfg)
-    rc, err = core.build_exe(cfg, src, exe, fl)
-    if rc != 0:
-        raise core.InfraError("float sweep TU failed to build:\n%s" % err[-2500:])
     stats, viols = [], []
-    outs = core.pmap(lambda p: core.sh([exe, str(p), str(core.NCPU)], timeout=3600), range(core.NCPU))
-    for rc, o, e in outs:
+    for bcfg in (cfg, core.CLANG14):
+        exe = os.path.join(wd, "fl_" + bcfg.name)
+        fl = ["-O1"] + cflags(bcfg)
+        rc, err = core.build_exe(bcfg, src, exe, fl)
         if rc != 0:
-            raise core.InfraError("float sweep failed: %s" % e[-500:])
-        for line in o.split("\n"):
-            if line.startswith("S "):
-                stats.append(json.loads(line[2:]))
-            elif line.startswith("V "):
-                viols.append(json.loads(line[2:]))
+            raise core.InfraError("float sweep TU failed to build (%s):\n%s" % (bcfg, err[-2500:]))
+        outs = core.pmap(lambda p: core.sh([exe, str(p), str(core.NCPU)], timeout=3600), range(core.NCPU))
+        for rc, o, e in outs:
+            if rc != 0:
+                raise core.InfraError("float sweep failed: %s" % e[-500:])
+            for line in o.split("\n"):
+                if line.startswith("S "):
+                    stats.append(dict(json.loads(line[2:]), build=str(bcfg)))
+                elif line.startswith("V "):
+                    viols.append(dict(json.loads(line[2:]), build=str(bcfg)))
+    if only is not None:
+        return viols
+    seen = set()
     for v in viols:
         key = "C04:%s:T=%s:m=%s:x=%s" % (v["kind"], v["T"], v["m"], v["x"])
+        if key in seen:
+            continue
+        seen.add(key)
         what = "%s: %s value x=%s scaled by %s: library overflow=%d" % (v["kind"], v["T"], v["x"], v["m"], v["lib_ovf"])
         run.violation(key, what, run.write_replay(key, {"kind": "float-value", "T": v["T"], "m": v["m"], "x": v["x"], "what": what}))
     if any(s["trunc"] for s in stats):
         pass   # floats: by convention no truncation; recorded only
+    g = [s for s in stats if s["build"] == str(cfg)]
     return {"float_instances": len(dom), "float_instances_candidates": len(cands), "float_evaluations": sum(s["evals"] for s in stats),
-            "float_dont_care_band": sum(s["band"] for s in stats),
-            "float_instances_with_both_outcomes": sum(1 for s in stats if 0 < s["ovf"] < s["evals"])}
+            "float_builds": [str(cfg), str(core.CLANG14)],
+            "float_dont_care_band": sum(s["band"] for s in g),
+            "float_instances_with_both_outcomes": sum(1 for s in g if 0 < s["ovf"] < s["evals"])}
+
+
+def replay_float(run, r, path):
+    """Re-run the whole (small) alphabet of the one (T, factor) instance and look for the recorded value."""
+    run.tier = r.get("tier", "quick")
+    hits = [v for v in explore_float(run, only=(r["T"], r["m"])) if v["x"] == r["x"]]
+    for h in hits:
+        print("reproduced:", json.dumps(h))
+    if hits:
+        print("VIOLATION property=C04 replay=%s" % path)
+        return 1
+    print("not reproduced on the current tree: %s x=%s factor=%s" % (r["T"], r["x"], r["m"]))
+    return 0
